@@ -88,6 +88,13 @@ print(json.dumps(res))
 
 
 def run(ctx, build):
+    for rnd in range(30 if ctx.thorough else 1):
+        ctx.extra['rounds'] = rnd + 1
+        if one_round(ctx, build, rnd) is False or ctx.violations:
+            return
+
+
+def one_round(ctx, build, rnd):
     from nobodd.server import BootHandler
     from nobodd.config import Board
     rng = ctx.rng
@@ -116,6 +123,7 @@ def run(ctx, build):
                                 warnings.simplefilter('ignore')
                                 sent, raised = sim.packet(0, 1, b'\0\1%x/%s\0' % (0x200 + i, name.encode()) + mode + b'\0blksize\x00512\0', 1000)
                                 hist.append((name, mode.decode(), steps))
+                                ctx.stat('request-' + mode.decode() + ('-abandoned' if steps is not None else ''))
                                 if sent and sent[0][1][:2] == b'\0\6':
                                     tid, blk, n = sent[0][0], 0, 0
                                     while steps is None or n < steps:
@@ -173,7 +181,7 @@ def run(ctx, build):
         reqs = [('config.txt', b'octet', None), ('text file.txt', b'netascii', None), ('kernel.img', b'octet', 2),
                 ('empty', b'octet', None), ('zerolen.bin', b'octet', None), ('zerolen.bin', b'netascii', None), ('kernel.img', b'octet', None)]
         res = realserver.run_script(REAL % dict(images=[p for p, _, _ in imgs], requests=reqs), timeout=240)
-        ctx.case(('real', tuple(c for _, _, c in imgs)), True, 'real-udp')
+        ctx.case(('real', rnd, tuple(c for _, _, c in imgs)), True, 'real-udp')
         if res.get('crash'):
             ctx.violation('boot.serve/real-server-crash', f'real BootServer scenario crashed: {res.get("stderr", "")[-400:]}', res)
             return
